@@ -282,4 +282,31 @@ def target_edition_is_the_targets_own(ctx, rid):
                 r.violation(rid, "%s: Target.edition is not the target's own edition" % short(f.id),
                             "the field derives from %s" % (foreign or sorted(src)[:4] or "a constant"), ["%s:%d" % (f.file, s[3])])
     r.floor(rid, n, 1, "constructions of cargo_fmt::Target outside the tests")
+    edition_is_always_passed(ctx, "R18-e")
+
+
+def edition_is_always_passed(ctx, rid):
+    """R18-e: every rustfmt process cargo-fmt starts is told the edition of the targets it formats"""
+    from common import expr_key
+    p, r = ctx.p, ctx.r
+    r.rule(rid, "cargo_fmt::run_rustfmt: no `Command::spawn` (or status / output) is reachable from the entry of the function "
+                "without passing an `args([\"--edition\", ..])` call — whatever the user put after `--`.  rustfmt's own default is "
+                "2015; a process started without the flag parses a 2021 crate as 2015 (`async fn` is an error) or formats it "
+                "under other rules")
+    f = p.fns.get("cargo_fmt::run_rustfmt")
+    if f is None:
+        r.undecidable(rid, "cargo_fmt::run_rustfmt not found")
+        return
+    ed = {c.bb for c in f.calls() if "Command" in c.name and c.name.rsplit("::", 1)[-1] in ("args", "arg")
+          and any("--edition" in expr_key(f, a) for a in c.args[1:2])}
+    spawns = [c for c in f.calls() if "Command" in c.name and c.name.rsplit("::", 1)[-1] in ("spawn", "status", "output")]
+    reach = f.reachable(0, avoid_blocks=ed)
+    bad = [c for c in spawns if c.bb in reach]
+    r.instance(rid, "run_rustfmt: --edition precedes every spawn", "violation" if bad or not ed else "ok", "%s:%d" % (f.file, f.line),
+               "%d edition-passing calls, %d spawns" % (len(ed), len(spawns)))
+    if bad or not ed:
+        r.violation(rid, "run_rustfmt can start rustfmt without --edition",
+                    "a spawn is reachable on a path that never adds `--edition <edition of the targets>`",
+                    [bad[0].loc() if bad else "%s:%d" % (f.file, f.line)])
+    r.floor(rid, len(spawns), 1, "process starts in run_rustfmt")
 
